@@ -5,6 +5,7 @@ import AtreeProofs.World.ArrRef
 import AtreeProofs.Map.TreeInv2
 import AtreeProofs.Map.TreeBasics
 import AtreeProofs.MapIds
+import AtreeProofs.Props.C17Ids
 /-
   C17 — the copy theorems and an INLINED source (audit a1 F9 "inlined-source hypotheses
   undischarged", FX9H item 3).
@@ -91,5 +92,81 @@ theorem copy_of_inlined_map (hT : legalThreshold T = true) (D : DigestFn (r + 1)
   obtain ⟨s', e1, e2, _⟩ := copy_size_rebased_map m m.addr c m' c' hc s hs hsz hroot
   obtain ⟨f1, f2, f3, f4, _⟩ := result_ids_fresh_map_copy m m.addr c m' c' hc m.slabIds hold
   exact ⟨copy_inv_map T D m m.addr c m' c' hc s hs hinv hcnt hdist, g1, g2, g3, g4, g5, ⟨s', e1, e2⟩, f1, f2, f3, f4⟩
+
+/-! ## Where inlined sources come from, and non-vacuity
+
+`MapDataSlab.Inline` (`OMap.inlineRoot`) applied to a valid single-slab map — e.g. a bulk-built
+one — gives a map satisfying `MapInvInl`: the hypotheses of `copy_of_inlined_map` are met by the
+inlined form of every valid small map whose inlined size is within the band. -/
+
+theorem inlineRoot_invInl (D : DigestFn (r + 1)) (m : OMap r) (ctr : Nat) (h : MapInvI T D m ctr)
+    (hd : m.d = 0) : MapInvInl T D m.inlineRoot ctr := by
+  obtain ⟨d, root, ty, cnt, seed⟩ := m
+  simp only at hd
+  subst hd
+  obtain ⟨hinv, hids⟩ := h
+  have hdata : MDataInv T D true (root : MDataSlab r) := (mtreeInv_zero_iff T D true root).mp hinv.tree
+  have hnext : (root : MDataSlab r).next = SlabID.undef := hinv.chain
+  refine ⟨_, ty, cnt, seed, rfl, hdata.root_eq, rfl, hnext, hdata.elems_inv, rfl, hdata.first_eq, hinv.count_eq, ?_⟩
+  intro id hid _
+  have hid' : id ∈ CtxOk.mapSlabIds 0 (root : MDataSlab r) := by
+    rw [mapSlabIds_zero] at hid
+    rw [mapSlabIds_zero (root : MDataSlab r)]
+    exact hid
+  exact (hids.2 id hid').2.2
+
+section NonVacuity
+open MapExample
+
+/-- an inlined array as the World invariant describes it: two 10-byte elements, identifier 7.3 -/
+def inlArr : Arr :=
+  ⟨0, ofData { hdr := { id := ⟨7, 3⟩, size := 37, count := 2 }, next := SlabID.undef,
+               elems := [⟨10, .val 1⟩, ⟨10, .val 2⟩], root := true, inlined := true }, 0⟩
+
+theorem inlArr_inv : ArrInvInl 256 inlArr 5 :=
+  ⟨_, 0, rfl, rfl, rfl, rfl, rfl, rfl,
+    by
+      intro e he
+      have he' : e ∈ [(⟨10, .val 1⟩ : Elem), ⟨10, .val 2⟩] := he
+      simp only [List.mem_cons, List.not_mem_nil, or_false] at he'
+      rcases he' with rfl | rfl <;> exact ⟨by decide, by decide⟩,
+    by decide, by decide, by decide⟩
+
+/-- the hypotheses of `copy_of_inlined_array` are met, and the copy is offered and succeeds -/
+example : ArrInvInl 256 inlArr 5 ∧ inlArr.rootHdr.size ≤ maxThr 256 ∧
+    ∃ a' c', inlArr.copyNonRefSimple 7 { ctr := 5, eff := [] } = .ok (a', c') ∧ ArrInv 256 a' c'.ctr ∧
+      a'.toList = inlArr.toList ∧ a'.rootHdr.size = 25 := by
+  refine ⟨inlArr_inv, by decide, ?_⟩
+  obtain ⟨a', c', hc⟩ := (copy_succeeds_when_offered_array inlArr 7 { ctr := 5, eff := [] }).mpr (by decide)
+  obtain ⟨h1, h2, _, _, _, h6, _⟩ := copy_of_inlined_array (T := 256) (by decide) inlArr 7 { ctr := 5, eff := [] }
+    inlArr_inv (by decide) a' c' hc
+  refine ⟨a', c', hc, h1, h2, ?_⟩
+  rw [h6, h2]; rfl
+
+/-- a bulk-built three-pair map, inlined by `MapDataSlab.Inline` -/
+def smallKvs : List (MKey × Elem) := [(key 100, val 1), (key 200, val 2), (key 300, val 3)]
+def smallBuilt : BRes (OMap 1 × Ctx) := OMap.fromBatchData cfg2 0 12345 smallKvs { ctr := 40, eff := [] }
+
+theorem smallBuilt_shape :
+    (match smallBuilt with
+     | .ok (m, _) => decide (m.d = 0) && decide (m.inlineRoot.rootHdr.size ≤ maxThr 256) &&
+         m.inlineRoot.canCopyNonRefSimple
+     | .error _ => false) = true := by
+  decide
+
+/-- the hypotheses of `copy_of_inlined_map` are met by the inlined form of a bulk-built map -/
+example : ∃ (m : OMap 1) (c' : Ctx), smallBuilt = .ok (m, c') ∧ MapInvInl 256 D2 m.inlineRoot c'.ctr ∧
+    m.inlineRoot.rootHdr.size ≤ maxThr 256 ∧ m.inlineRoot.canCopyNonRefSimple = true := by
+  obtain ⟨m, c', h1, h2, _⟩ := batch_map_invI D2 (T := 256) (by decide) cfg2 rfl rfl 0 12345 (by decide) smallKvs
+    (by intro p hp; simp only [smallKvs, List.mem_cons, List.not_mem_nil, or_false] at hp
+        rcases hp with rfl | rfl | rfl <;> exact ⟨key_ok _, val_ok _⟩)
+    (by decide) (by unfold KeysDistinct; decide) { ctr := 40, eff := [] }
+  have hb : smallBuilt = .ok (m, c') := h1
+  have hs := smallBuilt_shape
+  rw [hb] at hs
+  simp only [Bool.and_eq_true, decide_eq_true_eq] at hs
+  exact ⟨m, c', hb, inlineRoot_invInl D2 m c'.ctr h2 hs.1.1, hs.1.2, hs.2⟩
+
+end NonVacuity
 
 end Atree.C17
